@@ -1135,7 +1135,9 @@ func (bc *Blockchain) resetStateInternal(height uint32, stage stateChangeStage) 
 		p = time.Now()
 		var mode = mpt.ModeAll
 		if bc.config.RemoveUntraceableBlocks {
-			mode |= mpt.ModeGCFlag
+			// The target root is not the latest one, so it consists of inactive
+			// nodes; they carry reference counters and must stay readable.
+			mode = mpt.ModeLatest
 		}
 		trieStore := mpt.NewTrieStore(sr.Root, mode, upperCache.Store)
 		oldStoragePrefix := v.StoragePrefix
